@@ -20,11 +20,14 @@ RULE = ('cases = well-formed chart with 0-2 preconditions/postconditions/invaria
         'evaluation false: exactly Precondition/Postcondition/InvariantError must be raised by '
         'that execute_once, carrying that state/transition and condition, and the log must equal '
         'the fault-free log truncated right after occurrence k; conditions also record sent(x) / '
-        'received(x); when the failing occurrence is an end-of-step state invariant the run is '
+        'received(x) (in transition contracts received(x) must equal "x is the name of the consumed '
+        'event", elsewhere it must at least be false for every other x, also for x that is a part '
+        'of that name); when the failing occurrence is an end-of-step state invariant the run is '
         'continued and must go on exactly like the fault-free run. Non-trivial = a fault that is '
         'neither the first nor the last evaluation of its step; distinct = sha1(chart, history, k).')
 ASSUMPTIONS = ['the order of state invariants among different active states is not constrained',
                'idle()/after() are not used in these contracts (C13 covers them)']
+RECEIVED_PROBED = ('e0', 'e1', 'e2', 'e', '2', '')
 EXC = {'pre': 'PreconditionError', 'post': 'PostconditionError', 'inv': 'InvariantError'}
 MIX = (('sibling', 30), ('other', 15), ('orthin', 15), ('anc', 15), ('desc', 5), ('hist', 10),
        ('internal', 10))
@@ -249,6 +252,24 @@ def check_fault_free(spec, tree, recs):
                                               for m in (res['micro'] if res else [])]}})
             break
         cs = [x for x in log if x[0] == 'c']
+        # received(x) inside a condition: true iff x is the name of the event this step consumes
+        ename = res['event']['name'] if res and res['event'] else None
+        want_recv = tuple(ename == nm for nm in RECEIVED_PROBED)
+        owner = cond_table(spec)
+        for x in cs:
+            if len(x) <= 4 or x[4] is None:
+                continue
+            saw = tuple(x[4][3:])
+            # conditions of the transitions see the consumed event; conditions of states entered
+            # by a later (event-less) stabilisation micro step do not: there only "never true
+            # for another name" is demanded
+            exact = owner[x[1]][0] == 'transition'
+            if (exact and saw != want_recv) or any(a and not b for a, b in zip(saw, want_recv)):
+                viol.append({'prop': PROP, 'kind': 'received-wrong-in-condition', 'step': i,
+                             'detail': {'cid': x[1], 'consumed_event': ename,
+                                        'probed': list(RECEIVED_PROBED),
+                                        'saw': list(x[4][3:]), 'expected': list(want_recv)}})
+                break
         for j, x in enumerate(cs):
             evals.append((i, j, len(cs), x[1], x[3]))
     return viol, evals
